@@ -1,5 +1,5 @@
 """Which contracts decide which property."""
-from . import indexing, bases, align, axes, metadata, reshape
+from . import indexing, bases, align, axes, metadata, reshape, dataset
 
 GLOBAL_ASSUMPTIONS = [
     "NumPy implements the contracts in dverif/symnp.py (validated by sampling against the installed NumPy, never proved)",
@@ -16,7 +16,7 @@ PROPERTIES = {
         "level": "proof",
         "min_obligations": 2000,
     },
-    "T": {"contracts": [metadata.CopyIndependence], "level": "proof"},
+    "T": {"contracts": [dataset.DatasetSetItem, dataset.DatasetDelItem, dataset.DatasetRelabel], "level": "proof"},
     "C03": {
         "contracts": [bases.SetItem, indexing.MaybeCastType, (bases.Accessors, r"write|put|setitem"), (bases.ItemForwarding, r"^set"),
                       (bases.GetIndices, r"^r[01]-")],
@@ -34,6 +34,11 @@ PROPERTIES = {
         "contracts": [reshape.Transpose, reshape.SwapAxes, reshape.RollAxis, reshape.NewAxis, reshape.Squeeze, reshape.Repeat],
         "level": "proof",
         "min_obligations": 1200,
+    },
+    "C13": {
+        "contracts": [dataset.DatasetSetItem, dataset.DatasetDelItem, dataset.DatasetRelabel],
+        "level": "proof",
+        "min_obligations": 4000,
     },
     "C15": {
         "contracts": [metadata.CopyIndependence,
